@@ -267,8 +267,8 @@ func encCase(g *hc.Gen, o *hc.Out) {
 	o.NonTrivial("enc|" + op.sig() + "|" + textClasses(t) + "|" + dimClass(t) + "|" + b01(err != nil))
 }
 
-var encFormats = []option.Format{option.CSV, option.CSV, option.TSV}
-var decFormats = []option.Format{option.CSV, option.CSV, option.TSV}
+var encFormats = []option.Format{option.CSV, option.CSV, option.TSV, option.LTSV}
+var decFormats = []option.Format{option.CSV, option.CSV, option.TSV, option.LTSV}
 
 // ---------- stream dec ----------
 
